@@ -253,4 +253,103 @@ example : LegalDocHist [.newConn 1 none none true, .newConn 2 none none false,
       .setRoutingCheckpoints 1 [10, 11], .setRoutingCheckpoints 2 [12], .setRoutingCheckpoints 1 [13]]).vfreed
       = [10, 11] := by decide
 
+/-! ### P7 — clusters (`Avoid::ClusterRef`).  Clusters take their ids from the router's common id space and
+are part of `allocated` / `created` / `freed`, so `live_sets_refine`, `freed_once`, `all_released` and
+`no_leak` above already speak about them.  What is specific to clusters: they never go through the
+action queue — the constructor links the cluster into `Router::clusterRefs` at once, `deleteCluster`
+unlinks and frees it at once — and `~Router` frees the ones still linked (/repo def6b3d). -/
+
+/-- after every documented-legal history every allocated cluster is linked in `clusterRefs`: the public
+    list is exactly the set of live clusters (what the harness prints as `ok` is all there is) -/
+theorem clusters_linked (h : List Op) (hl : LegalDocHist h = true) : ClustersLinked (run h) :=
+  (core_run h hl).clActive
+
+/-- `~Router` leaves no cluster behind — for every DOCUMENTED-legal history (no strictness needed:
+    clusters are never "queued", so the K1 restriction does not concern them) -/
+theorem clusters_released (h : List Op) (hl : LegalDocHist h = true) (hdead : (run h).alive = false) :
+    ClustersReleased (run h) :=
+  ⟨hdead, clusters_nil_of_dead core_init (fun hh => by cases hh) h hl hdead⟩
+
+/-- non-vacuity: clusters created before and after shapes, one re-polygonised, one deleted in the middle,
+    two alive at `~Router`; all three ids are created once and freed once, and the history is even
+    strictly legal, so `no_leak` / `all_released` apply to it -/
+example : LegalHist [.newCluster 1, .newShape 2, .newCluster 3, .processTransaction, .setClusterPoly 1,
+      .newCluster 4, .deleteCluster 3, .deleteShape 2, .deleteRouter] = true ∧
+    (run [.newCluster 1, .newShape 2, .newCluster 3, .processTransaction, .setClusterPoly 1,
+      .newCluster 4, .deleteCluster 3, .deleteShape 2]).clusters.map (·.id) = [1, 4] ∧
+    (run [.newCluster 1, .newShape 2, .newCluster 3, .processTransaction, .setClusterPoly 1,
+      .newCluster 4, .deleteCluster 3, .deleteShape 2, .deleteRouter]).freed = [3, 2, 1, 4] ∧
+    (run [.newCluster 1, .newShape 2, .newCluster 3, .processTransaction, .setClusterPoly 1,
+      .newCluster 4, .deleteCluster 3, .deleteShape 2, .deleteRouter]).leaked = [] := by decide
+
+/-- a cluster id cannot be reused while the router lives, and a deleted cluster cannot be used again -/
+example : LegalDocHist [.newCluster 1, .newShape 1] = false ∧
+    LegalDocHist [.newCluster 1, .deleteCluster 1, .setClusterPoly 1] = false ∧
+    LegalDocHist [.newCluster 1, .deleteCluster 1, .deleteCluster 1] = false := by decide
+
+/-- **The machine as the code was before /repo def6b3d (`stepOld`: `deleteCluster` only unlinks, `~Router`
+    ignores `clusterRefs`) violates `no_leak`, `all_released`, `clusters_linked` and `clusters_released`**
+    on strictly legal histories: a cluster alive at `~Router` leaks, and a cluster handed to
+    `deleteCluster` leaks as well (it is unlinked but stays allocated — and `~ClusterRef` aborts when the
+    user calls it, so nobody can free it).  The same histories are strictly legal and leak-free for the
+    current machine `step`.  Reverting def6b3d therefore turns the proved `no_leak` into a statement about
+    the wrong machine; the machine that matches the reverted code is refuted here by evaluation. -/
+theorem pre_fix_router_leaks_clusters :
+    -- (a) cluster alive at ~Router
+    (LegalHistOld [.newCluster 1, .deleteRouter] = true ∧
+     (runOld [.newCluster 1, .deleteRouter]).alive = false ∧
+     (runOld [.newCluster 1, .deleteRouter]).leaked = [1] ∧
+     ¬ AllReleased (runOld [.newCluster 1, .deleteRouter]) ∧
+     ¬ ClustersReleased (runOld [.newCluster 1, .deleteRouter])) ∧
+    -- (b) cluster deleted with Router::deleteCluster, then ~Router
+    (LegalHistOld [.newCluster 1, .deleteCluster 1, .deleteRouter] = true ∧
+     (runOld [.newCluster 1, .deleteCluster 1, .deleteRouter]).leaked = [1] ∧
+     (runOld [.newCluster 1, .deleteCluster 1, .deleteRouter]).freed = [] ∧
+     ¬ ClustersLinked (runOld [.newCluster 1, .deleteCluster 1])) ∧
+    -- (c) the current machine on the same histories
+    (LegalHist [.newCluster 1, .deleteRouter] = true ∧
+     (run [.newCluster 1, .deleteRouter]).leaked = [] ∧
+     LegalHist [.newCluster 1, .deleteCluster 1, .deleteRouter] = true ∧
+     (run [.newCluster 1, .deleteCluster 1, .deleteRouter]).leaked = [] ∧
+     (run [.newCluster 1, .deleteCluster 1, .deleteRouter]).freed = [1]) := by
+  refine ⟨⟨by decide, by decide, by decide, ?_, ?_⟩, ⟨by decide, by decide, by decide, ?_⟩, by decide⟩
+  · intro h; have := h.2 1 (by decide); revert this; decide
+  · intro h; have := h.2; revert this; decide
+  · intro h; have := h ⟨1, false⟩ (by decide); revert this; decide
+
+/-! ### P8 — API calls without lifetime effect, and `ConnRef::setRoutingType`.  `apiRouter` / `apiConn` /
+`apiObst` / `setClusterPoly` are the identity of the model on a legal call; all theorems above quantify
+over histories that contain them anywhere.  `touchConn` queues a bare ConnChange through
+`Router::modifyConnector(conn)`: it is processed like every other queue entry and changes no live set. -/
+
+/-- calls without lifetime effect leave the whole state alone when they are documented-legal -/
+theorem api_calls_are_identity (s : St) :
+    (LegalDoc s .apiRouter = true → step s .apiRouter = s) ∧
+    (∀ c, LegalDoc s (.apiConn c) = true → step s (.apiConn c) = s) ∧
+    (∀ o, LegalDoc s (.apiObst o) = true → step s (.apiObst o) = s) ∧
+    (∀ k, LegalDoc s (.setClusterPoly k) = true → step s (.setClusterPoly k) = s) := by
+  refine ⟨?_, ?_, ?_, ?_⟩
+  · intro h
+    simp only [LegalDoc, Bool.and_true] at h
+    simp [step, h]
+  · intro c h
+    simp only [LegalDoc, Bool.and_eq_true] at h
+    simp [step, h.1, h.2]
+  · intro o h
+    simp only [LegalDoc, Bool.and_eq_true] at h
+    simp [step, h.1, h.2.1]
+  · intro k h
+    simp only [LegalDoc, Bool.and_eq_true] at h
+    simp [step, h.1, h.2]
+
+/-- non-vacuity, and `touchConn` in both transaction modes: the bare ConnChange stays queued with
+    transactions on and is processed at once with transactions off; a connector deleted while its bare
+    ConnChange is queued takes the entry with it (`removeObjectFromQueuedActions`) -/
+example : LegalHist [.newShape 1, .newConn 2 none none true, .processTransaction, .apiRouter, .apiConn 2,
+      .apiObst 1, .touchConn 2, .touchConn 2, .deleteConn 2, .deleteRouter] = true ∧
+    (run [.newShape 1, .newConn 2 none none true, .processTransaction, .touchConn 2, .touchConn 2]).actions
+      = [{ type := .connChange, obj := 2 }] ∧
+    (run [.newShape 1, .newConn 2 none none true, .processTransaction, .touchConn 2, .deleteConn 2]).actions = [] ∧
+    (run [.setTransactionUse false, .newConn 2 none none true, .touchConn 2]).actions = [] := by decide
+
 end AdaptaVerif.Props.C15
